@@ -95,6 +95,7 @@ PoolHits(cfg, D) ==
     beyondQueue    |-> Cardinality(D.m.submitted) > 2 * NW(cfg),
     queueFull      |-> D.m.full,           \* a Submit was called while queue and workers were full: it had to block
     paced          |-> Open(cfg),
+    earlyClose     |-> "early" \in DOMAIN cfg /\ cfg.early,
     overlapped     |-> D.m.maxfl > 1,
     nonPositive    |-> cfg.W <= 0 ]
 =============================================================================
